@@ -41,7 +41,12 @@ func GetJsonDataType(t dsl.Type) JsonDataType {
 	}
 
 	if len(gt.Cases) > 1 {
-		panic("unexpected union type")
+		// a union reached through an alias: it can take the JSON form of any of its cases
+		var res JsonDataType
+		for _, c := range gt.Cases {
+			res |= GetJsonDataType(c.Type)
+		}
+		return res
 	}
 
 	scalarType := gt.Cases[0].Type.(*dsl.SimpleType)
